@@ -252,8 +252,7 @@ theorem char_error_eq (ch : Nat) (h : ch < 2 ^ 31) : Kernels.char_error ch = .ok
     omega
   · rfl
 
-/-- the byte `b` as the `char` (signed on this platform) the C++ functions receive -/
-def toChar (b : Nat) : Int := if b < 128 then (b : Int) else (b : Int) - 256
+export StVerif.Cxx (toChar)
 
 theorem cl_fast_lower_eq : ∀ b, b < 256 → Kernels.cl_fast_lower (toChar b) = .ok (toChar (Search.lower b)) := by
   decide +kernel
